@@ -386,6 +386,11 @@ func genC01(c *Ctx) {
 				s = hi[i-40]
 			}
 		}
+		if i >= 50 && i < 90 && i%9 != 4 {
+			if rf := refusedInFirstShareCases(c, r); i-50 < len(rf) {
+				s = rf[i-50]
+			}
+		}
 		if i%9 == 4 {
 			// only blob transactions (the kept list is then the blob group alone)
 			var only []genTx
@@ -499,6 +504,55 @@ func genC02(c *Ctx) {
 			s.max = 128
 		}
 		list = append(list, s)
+	}
+	// Go side only: a first blob transaction with several one-share blobs in a HIGH namespace, then one large blob
+	// in a LOW namespace that is laid out in front of them and pushes their start indexes to 128 and beyond
+	// (two-byte varints), with the length of the first inner transaction swept over a whole compact share (478
+	// values), so that the wrapped PFBs end at every distance from a share end: any estimate of the first PFB
+	// tighter than the specified 3-byte placeholders under-counts somewhere in the sweep
+	{
+		nss := blobNamespaces(r, 2)
+		lo, hi := nss[0], nss[1]
+		if bytes.Compare(lo, hi) > 0 {
+			lo, hi = hi, lo
+		}
+		big := genBlob{ns: lo, data: r.Bytes(478 + 482*(130+r.Intn(60)))}
+		nSmall := 4 + r.Intn(8)
+		var small []genBlob
+		for k := 0; k < nSmall; k++ {
+			small = append(small, genBlob{ns: hi, data: r.Bytes(1 + r.Intn(400))})
+		}
+		sizesOf := map[string][]uint32{}
+		decoder := func(pfb []byte) ([]uint32, error) {
+			if sz, ok := sizesOf[string(pfb)]; ok {
+				return sz, nil
+			}
+			return nil, fmt.Errorf("unknown inner transaction")
+		}
+		innerB := r.Bytes(50)
+		sizesOf[string(innerB)] = []uint32{uint32(len(big.data))}
+		txB := blobTxWithInner(innerB, []genBlob{big})
+		for l := 1; l <= 478; l++ {
+			innerA := r.Bytes(l)
+			var sz []uint32
+			for _, g := range small {
+				sz = append(sz, uint32(len(g.data)))
+			}
+			sizesOf[string(innerA)] = sz
+			txs := [][]byte{blobTxWithInner(innerA, small), txB}
+			wit := map[string]any{"first_inner_len": l, "small_blobs": nSmall, "big_blob_shares": (len(big.data) + 3) / 482, "max": 64, "thr": 64}
+			c.guard("Construct/Deconstruct", wit, func() {
+				sq, err := square.Construct(txs, 64, 64)
+				if !c.check(err == nil, "Construct", "error on a list that fits (later low-namespace blob pushes earlier blobs to two-byte indexes)", wit) {
+					return
+				}
+				back, err := square.Deconstruct(sq, decoder)
+				c.check(err == nil && len(back) == 2 && bytes.Equal(back[0], txs[0]) && bytes.Equal(back[1], txs[1]), "Deconstruct", "does not return the transactions the square was constructed from", wit)
+			})
+			delete(sizesOf, string(innerA))
+		}
+		c.count("pushed_index_sweep")
+		c.goOnly += 478
 	}
 	for ci, s := range list {
 		ci, s := ci, s
@@ -827,6 +881,7 @@ func genC06(c *Ctx) {
 		list = append(list, randSquareCase(c, r, false, true))
 	}
 	list = append(list, fullSquareExactFitCases(c, r)...)
+	list = append(list, refusedInFirstShareCases(c, r)...)
 	list = append(list, sameNsPairCases(c, r)...)
 	list = append(list, refusedLowNamespaceCases(c, r)...)
 	list = append(list, hugeInnerCases(c, r)...)
@@ -868,8 +923,18 @@ func genC06(c *Ctx) {
 		var pfbs []refTx
 		refused := false
 		hasBlob := false
-		for _, t := range s.txs {
-			before := fmt.Sprintf("%d/%d/%d/%d/%d/%d", b.CurrentSize(), len(b.Txs), len(b.Pfbs), len(b.Blobs), b.TxCounter.Size(), b.PfbCounter.Size())
+		for ti, t := range s.txs {
+			if (ci+ti)%4 == 1 {
+				// an export or a query in the middle of the history (they rewrite the share indexes inside the
+				// wrapped PFBs the builder holds; the counters must keep counting the worst case)
+				if (ci+ti)%8 == 1 {
+					_, _ = b.Export()
+				} else {
+					_, _ = b.FindTxShareRange(0)
+				}
+				c.count("mid_history_export_or_query")
+			}
+			before := builderObs(b)
 			var ok bool
 			var would int
 			if t.blobs == nil {
@@ -893,13 +958,13 @@ func genC06(c *Ctx) {
 				c.check(b.CurrentSize() == would, "CurrentSize", "differs from the worst-case estimate of the rules", wit)
 			} else {
 				refused = true
-				after := fmt.Sprintf("%d/%d/%d/%d/%d/%d", b.CurrentSize(), len(b.Txs), len(b.Pfbs), len(b.Blobs), b.TxCounter.Size(), b.PfbCounter.Size())
+				after := builderObs(b)
 				c.check(before == after, "refused append", "changed the builder's observable state", wit)
 			}
 			if r.Intn(8) == 0 {
 				// a blob transaction without blobs appended directly: a PFB with no share indexes
 				zt := refTx{isBlob: true, inner: r.Bytes(pick(r, []int{1, 200, 440, 470, 1200}))}
-				before := fmt.Sprintf("%d/%d/%d/%d/%d/%d", b.CurrentSize(), len(b.Txs), len(b.Pfbs), len(b.Blobs), b.TxCounter.Size(), b.PfbCounter.Size())
+				before := builderObs(b)
 				would := refEstimate(normals, append(append([]refTx{}, pfbs...), zt), s.thr)
 				ok := b.AppendBlobTx(&tx.BlobTx{Tx: zt.inner})
 				c.check(ok == (would <= s.max*s.max), "Append (no blobs)", "not refused exactly when the estimate would exceed max squared", wit)
@@ -907,7 +972,7 @@ func genC06(c *Ctx) {
 					pfbs = append(pfbs, zt)
 					c.check(b.CurrentSize() == would, "CurrentSize", "differs from the worst-case estimate of the rules", wit)
 				} else {
-					after := fmt.Sprintf("%d/%d/%d/%d/%d/%d", b.CurrentSize(), len(b.Txs), len(b.Pfbs), len(b.Blobs), b.TxCounter.Size(), b.PfbCounter.Size())
+					after := builderObs(b)
 					c.check(before == after, "refused append", "changed the builder's observable state", wit)
 				}
 				c.count("zero_blob_append")
@@ -1362,6 +1427,48 @@ func manyTinyTxCases(c *Ctx, r *Rng) []sqCase {
 		}
 		out = append(out, sqCase{txs: l, max: max, thr: 64})
 		c.count("more_txs_than_shares")
+	}
+	return out
+}
+
+// builderObs: what a caller can see of a builder without exporting it (the two counters are exported fields)
+func builderObs(b *square.Builder) string {
+	return fmt.Sprintf("%d/%d/%d/%d/%d/%d/%d/%d", b.CurrentSize(), len(b.Txs), len(b.Pfbs), len(b.Blobs), b.TxCounter.Size(), b.PfbCounter.Size(),
+		b.TxCounter.Remainder(), b.PfbCounter.Remainder())
+}
+
+// refusedInFirstShareCases: an ordinary transaction that does not fit is offered (and refused) while the tx
+// sequence is still INSIDE its first compact share (474 content bytes, the later ones 478), and the
+// transactions kept afterwards end w bytes behind the end of share k (w = 0..5: the difference between the two
+// capacities is 4): a rollback that forgets which share it is in miscounts exactly there.
+func refusedInFirstShareCases(c *Ctx, r *Rng) []sqCase {
+	var out []sqCase
+	for _, max := range []int{2, 4} {
+		for k := 0; k < max; k++ {
+			for w := 0; w <= 5; w++ {
+				a := 1 + r.Intn(120)
+				if (k+w)%2 == 1 {
+					a = 130 + r.Intn(200)
+				}
+				used := len(refDelimited(make([]byte, a)))
+				target := 474 + 478*k + w - used // stream bytes of the filler unit
+				fl := target - 3
+				for fl < 1 || len(refDelimited(make([]byte, fl))) < target {
+					fl++
+				}
+				if len(refDelimited(make([]byte, fl))) != target {
+					continue
+				}
+				big := genTx{raw: r.Bytes(478*max*max + 100)}
+				l := []genTx{{raw: r.Bytes(a)}, big, {raw: r.Bytes(fl)}}
+				if w%2 == 1 {
+					// the refused one offered twice, and a small blob transaction behind everything
+					l = []genTx{{raw: r.Bytes(a)}, big, big, {raw: r.Bytes(fl)}}
+				}
+				out = append(out, sqCase{txs: l, max: max, thr: 64})
+				c.count("refused_inside_first_compact_share")
+			}
+		}
 	}
 	return out
 }
@@ -1852,6 +1959,61 @@ func genC12(c *Ctx) {
 				c.mark(fmt.Sprintf("%s #%d", s.shape(), idx))
 			}
 		}
+		// lists that have NO square (something behind - or in front of - the queried transaction does not fit,
+		// or an ordinary transaction follows a blob transaction): every index must give an error, exactly as
+		// Construct does; never a range for a square that does not exist
+		{
+			var ordered [][]byte
+			for _, t := range s.txs {
+				if t.blobs == nil {
+					ordered = append(ordered, t.raw)
+				}
+			}
+			nOrd := len(ordered)
+			for _, t := range s.txs {
+				if t.blobs != nil {
+					ordered = append(ordered, t.raw)
+				}
+			}
+			var lists [][][]byte
+			if len(kept) < len(s.txs) {
+				lists = append(lists, ordered) // everything, refused ones included
+			}
+			if nOrd > 0 && nOrd < len(ordered) && len(ordered) <= 12 {
+				// the first ordinary transaction moved behind the blob transactions
+				lists = append(lists, append(append([][]byte{}, ordered[1:]...), ordered[0]))
+			}
+			if len(normals) > 0 && s.max <= 16 {
+				// the kept list with one ordinary transaction larger than the whole square behind the kept ordinary ones
+				l := append(append([][]byte{}, normals...), r.Bytes(478*s.max*s.max+100))
+				lists = append(lists, append(l, kept[len(normals):]...))
+			}
+			for _, l := range lists {
+				if _, cerr := square.Construct(l, s.max, s.thr); cerr == nil {
+					continue
+				}
+				lhex := joinHexList(l)
+				for _, idx := range []int{0, nOrd - 1, nOrd, len(l) - 1} {
+					if idx < 0 || idx >= len(l) {
+						continue
+					}
+					small := len(lhex) < 60000 // larger lists: implementation and oracle only
+					if small {
+						c.add("txrange", strconv.Itoa(s.max), strconv.Itoa(s.thr), strconv.Itoa(idx), lhex)
+					}
+					_, err := square.TxShareRange(l, idx, s.max, s.thr)
+					c.check(err != nil, "TxShareRange", "a range is reported for a list of which Construct makes no square", map[string]any{"case": s.shape(), "index": idx, "txs": len(l)})
+					if idx >= nOrd {
+						if small {
+							c.add("blobrange", strconv.Itoa(s.max), strconv.Itoa(s.thr), strconv.Itoa(idx), "0", lhex)
+						}
+						_, err := square.BlobShareRange(l, idx, 0, s.max, s.thr)
+						c.check(err != nil, "BlobShareRange", "a range is reported for a list of which Construct makes no square", map[string]any{"case": s.shape(), "index": idx, "txs": len(l)})
+					}
+				}
+				c.count("range_query_on_list_without_square")
+			}
+		}
 		// splitter ranges agree (ordinary transactions, distinct ones only)
 		css := share.NewCompactShareSplitter(share.TxNamespace, 0)
 		count := map[string]int{}
@@ -2105,7 +2267,20 @@ func genC20(c *Ctx) {
 		nss = append(nss, v255small, v255rand, vOther)
 		nss = append(nss, txNs, pfbNs, tailNs)
 		var list [][]byte
-		for j := 0; j < n; j++ {
+		// the first iterations: LONG lists (130..530 shares) made of long runs, so that runs begin before and
+		// reach across indexes 32, 64, 128, 256, 512 (whatever stride a faster search might probe at)
+		long := i < 4
+		if long {
+			n = 130 + r.Intn(400)
+			for len(list) < n {
+				ns := pick(r, nss)
+				for k := 1 + r.Intn(200); k > 0 && len(list) < n; k-- {
+					list = append(list, ns)
+				}
+			}
+			c.count("nsrange_long_list")
+		}
+		for j := len(list); j < n; j++ {
 			list = append(list, pick(r, nss))
 		}
 		sort.Slice(list, func(a, b int) bool { return bytes.Compare(list[a], list[b]) < 0 })
@@ -2136,6 +2311,16 @@ func genC20(c *Ctx) {
 			v := append([]byte{}, ns...)
 			v[0] ^= 0x01
 			queries = append(queries, v)
+		}
+		if long {
+			// every namespace present once, and three absent ones
+			var qs [][]byte
+			for j, ns := range list {
+				if j == 0 || !bytes.Equal(ns, list[j-1]) {
+					qs = append(qs, ns)
+				}
+			}
+			queries = append(qs, queries[len(queries)-3:]...)
 		}
 		sharesHex := joinHexList(raws)
 		if i%6 == 5 && n >= 3 {
@@ -2168,6 +2353,50 @@ func genC20(c *Ctx) {
 			c.mark(fmt.Sprintf("%d %s", n, hx(q)))
 		}
 	}
+	// Go side only: a blob transaction with MORE THAN 256 blobs (one in namespace B, the rest in namespace A) and
+	// a later transaction with a blob in namespace A: the sequences of the square must come in namespace order
+	// and, inside one namespace, in (transaction, blob index) order - also for blob indexes >= 256
+	c.guard("ParseShares (many blobs)", map[string]any{"blobs": "260..330 in one transaction"}, func() {
+		nss := blobNamespaces(r, 2)
+		nsA, nsB := nss[0], nss[1]
+		n0 := 260 + r.Intn(70)
+		var b0 []genBlob
+		b0 = append(b0, genBlob{ns: nsB, data: r.Bytes(1 + r.Intn(300))})
+		for k := 0; k < n0; k++ {
+			b0 = append(b0, genBlob{ns: nsA, data: append([]byte{byte(k), byte(k >> 8)}, r.Bytes(1+r.Intn(200))...)})
+		}
+		b1 := []genBlob{{ns: nsA, data: r.Bytes(1 + r.Intn(300))}, {ns: nsB, data: r.Bytes(1 + r.Intn(300))}}
+		txs := [][]byte{blobTxWithInner(r.Bytes(40), b0), blobTxWithInner(r.Bytes(30), b1)}
+		all := append(append([]genBlob{}, b0...), b1...)
+		sort.SliceStable(all, func(x, y int) bool { return bytes.Compare(all[x].ns, all[y].ns) < 0 })
+		wit := map[string]any{"blobs_in_first_tx": len(b0), "blobs_in_second_tx": len(b1)}
+		sq, err := square.Construct(txs, 64, 64)
+		if !c.check(err == nil, "Construct", "error", wit) {
+			return
+		}
+		seqs, err := share.ParseShares(sq, true)
+		if !c.check(err == nil, "ParseShares", "error on a constructed square", wit) {
+			return
+		}
+		k := 0
+		ok := true
+		for _, sqn := range seqs {
+			nsb := sqn.Namespace.Bytes()
+			if bytes.Equal(nsb, txNs) || bytes.Equal(nsb, pfbNs) || bytes.Equal(nsb, tailNs) || (len(sqn.Shares) == 1 && sqn.Shares[0].IsPadding()) {
+				continue
+			}
+			d, derr := sqn.RawData()
+			if k >= len(all) || derr != nil || !bytes.Equal(nsb, all[k].ns) || !bytes.Equal(d, all[k].data) {
+				ok = false
+				wit["first_wrong_sequence"] = k
+				break
+			}
+			k++
+		}
+		c.check(ok && k == len(all), "ParseShares", "blob sequences are not the blobs in namespace order and, inside a namespace, in (transaction, blob index) order", wit)
+		c.count("more_than_256_blobs_in_one_tx")
+		c.goOnly++
+	})
 	// sequence parsing on constructed squares
 	for i := 0; i < 120*c.scale; i++ {
 		s := randSquareCase(c, r, true, r.Bool(40))
